@@ -90,9 +90,23 @@ def pub_line(c):
 
 
 class FakeWriter:
+    """what Publish.finish_publishing asks of a write proxy; its Deferred is fired by the harness"""
+
     def __init__(self, shnum, server):
         self.shnum = shnum
         self.server = server
+        self.d = None
+
+    def put_verification_key(self, vk):
+        pass
+
+    def get_verinfo(self):
+        return (5, b"r" * 32, b"i" * 16, 6, 6, 1, 10, b"prefix", ())
+
+    def finish_publishing(self):
+        from twisted.internet import defer
+        self.d = defer.Deferred()
+        return self.d
 
 
 class FakeNode:
@@ -142,7 +156,25 @@ def impl_pub(rt, c):
     p.done_deferred.addBoth(res.append)
     p._push()
     rt.settle()
-    if not res:
+    known_writers = all((e[1], e[2]) in ws for e in c["evs"])
+    if not res and known_writers and ws:
+        # the real finish_publishing(): it hangs _connection_problem / _got_write_answer on every proxy's Deferred;
+        # the answers arrive after its loop has finished, in the order of the case
+        p.finish_publishing()
+        if not c["vi"]:
+            p.versioninfo = ""
+        for e in c["evs"]:
+            w = ws[(e[1], e[2])]
+            if w.d is None or w.d.called:
+                continue
+            if e[0] == "p":
+                w.d.errback(Failure(RuntimeError("boom")))
+            else:
+                w.d.callback((e[3], {sh: [cs_bytes(cs)] for (sh, cs) in e[4]}))
+        p._state = P.DONE_STATE
+        p._push()
+        rt.settle()
+    elif not res:
         for e in c["evs"]:
             w = ws.get((e[1], e[2])) or FakeWriter(e[1], servers[e[2]])
             if e[0] == "p":
@@ -164,10 +196,12 @@ def impl_pub(rt, c):
     else:
         out = repr(res[0])
     left = sorted((w.shnum, w.server.i) for wset in p.writers.values() for w in wset)
-    return "%s;%s;%s;%s;%s" % (out, "T" if getattr(p, "surprised") else "F",
-                               ",".join("%d@%d" % x for x in left) or "-",
-                               ",".join("%d.%d" % x for x in sorted((s.i, sh) for (s, sh) in p.placed)) or "-",
-                               ",".join(str(i) for i in sorted(s.i for s in p.bad_servers)) or "-")
+    goal = sorted((s.i, sh) for (s, sh) in p.goal) if c["writers"] else []
+    return "%s;%s;%s;%s;%s;%s" % (out, "T" if getattr(p, "surprised") else "F",
+                                  ",".join("%d@%d" % x for x in left) or "-",
+                                  ",".join("%d.%d" % x for x in sorted((s.i, sh) for (s, sh) in p.placed)) or "-",
+                                  ",".join(str(i) for i in sorted(s.i for s in p.bad_servers)) or "-",
+                                  ",".join("%d.%d" % x for x in goal) or "-")
 
 
 def monitor_pub(ctx, c, out, where, case=None):
@@ -202,6 +236,56 @@ def monitor_pub(ctx, c, out, where, case=None):
     if result not in ("success", "UncoordinatedWriteError", "NotEnoughServersError", "no-result"):
         ctx.count("pub-other-result:" + result)
     return bool(failed or refused or unexpected)
+
+
+# ----------------------------------------------------------------------------- (a') the write proxies
+
+def impl_proxy(mdmf, rpc):
+    """the real SDMF/MDMF write proxy's finish_publishing() against a storage server that answers / refuses / fails:
+    what does the Deferred handed to Publish fire with?"""
+    from twisted.internet import defer
+    from twisted.python.failure import Failure
+    from allmydata.mutable.layout import MDMFSlotWriteProxy, SDMFSlotWriteProxy
+
+    class SS:
+        def slot_testv_and_readv_and_writev(self, si, secrets, tw, rv):
+            if rpc[0] != "A":
+                return defer.fail(RuntimeError("lost"))
+            return defer.succeed((rpc[1], {sh: [cs_bytes(cs)] for (sh, cs) in rpc[2]}))
+    cls = MDMFSlotWriteProxy if mdmf else SDMFSlotWriteProxy
+    w = cls(0, SS(), b"s" * 16, (b"w" * 32, b"r" * 32, b"c" * 32), 2, 1, 2, 6, 6)
+    w.put_block(b"abcdef", 0, b"s" * 16)
+    w.put_encprivkey(b"e" * 100)
+    w.put_blockhashes([b"h" * 32])
+    w.put_sharehashes({0: b"h" * 32})
+    w.put_root_hash(b"r" * 32)
+    w.put_signature(b"g" * 256)
+    w.put_verification_key(b"v" * 200)
+    box = []
+    w.finish_publishing().addBoth(box.append)
+    if not box:
+        return "no-result"
+    r = box[0]
+    if isinstance(r, Failure):
+        return "failure"
+    if not r:
+        return "none"
+    back = {bytes(cs_bytes(i)): i for i in range(32)}
+    return "answer:%s:%s" % ("T" if r[0] else "F",
+                             ",".join("%d=%d" % (sh, back.get(bytes(v[0]), -1)) for sh, v in sorted(r[1].items())) or "-")
+
+
+def rpc_token(rpc):
+    if rpc[0] == "A":
+        return "A:%s:%s" % ("T" if rpc[1] else "F", ",".join("%d=%d" % tuple(x) for x in rpc[2]) or "-")
+    return "B" if rpc[0] == "B" else "L:%s" % ("T" if rpc[1] else "F")
+
+
+def gen_rpc(rng):
+    r = rng.random()
+    if r < 0.6:
+        return ("A", rng.random() < 0.7, sorted({rng.randrange(4): rng.randrange(1, 12) for _ in range(rng.randrange(0, 3))}.items()))
+    return ("B",) if r < 0.8 else ("L", rng.random() < 0.7)
 
 
 # ----------------------------------------------------------------------------- (b) update_goal
@@ -382,6 +466,7 @@ def run_scenario(ctx, sc, acc):
                 node = None
                 snaps = []
                 old_snap = None
+                executed = {}          # (server, shnum) -> wrote flag of a request that was executed but whose answer was lost
 
                 def W(d):
                     # publishes use no timers: pump only what is due now, so that a hung server is seen as
@@ -413,7 +498,7 @@ def run_scenario(ctx, sc, acc):
                                 return None
                             w.fault = fault
                         if f in ("before", "after", "hang"):
-                            def fault(methname, args, kwargs, _f=f, _w=w):
+                            def fault(methname, args, kwargs, _f=f, _w=w, _i=i):
                                 if methname != "slot_testv_and_readv_and_writev":
                                     return None
                                 if _f == "before":
@@ -421,7 +506,9 @@ def run_scenario(ctx, sc, acc):
                                 if _f == "hang":
                                     return "hang"
                                 # the write is executed, the answer is lost
-                                _w.original.remote_slot_testv_and_readv_and_writev(*args, **kwargs)
+                                r_ = _w.original.remote_slot_testv_and_readv_and_writev(*args, **kwargs)
+                                for sh_ in args[2]:
+                                    executed[(_i, sh_)] = bool(r_[0])
                                 return "error"
                             w.fault = fault
 
@@ -431,6 +518,7 @@ def run_scenario(ctx, sc, acc):
                     if node is not None:
                         snaps.append(mc.snapshot_files(g, node.get_storage_index()))
                     old_snap = snaps[-2] if len(snaps) >= 2 else None
+                    executed.clear()
                     set_faults(st["faults"])
                     ctx.count("grid-step:" + st["kind"])
                     stuck = False
@@ -479,14 +567,32 @@ def run_scenario(ctx, sc, acc):
                             mcase = {"k": r["k"], "cs": r["cs"] or 0, "vi": r.get("vi", True), "writers": r["writers"],
                                      "evs": r["evs"]}
                             left = sorted((w.shnum, H.sidx(w.server)) for ws in p.writers.values() for w in ws)
-                            impl = "%s;%s;%s;%s;%s" % (
+                            impl = "%s;%s;%s;%s;%s;%s" % (
                                 r["result"], "T" if getattr(p, "surprised") else "F", ",".join("%d@%d" % x for x in left) or "-",
                                 ",".join("%d.%d" % x for x in sorted((H.sidx(s), sh) for (s, sh) in p.placed)) or "-",
-                                ",".join(str(i) for i in sorted(H.sidx(s) for s in p.bad_servers)) or "-")
+                                ",".join(str(i) for i in sorted(H.sidx(s) for s in p.bad_servers)) or "-",
+                                ",".join("%d.%d" % x for x in sorted((H.sidx(s), sh) for (s, sh) in p.goal)) or "-")
                             acc["lines"].append(pub_line(mcase))
                             acc["impl"].append(impl)
                             acc["cases"].append({"kind": "grid-pub", "sc": sc, "step": idx, "line": acc["lines"][-1]})
                             monitor_pub(ctx, mcase, impl, "grid", case)
+                            # end to end: what happened to each request, and which slots hold the new version on disk
+                            arr = []
+                            for e in r["evs"]:
+                                if e[0] == "a":
+                                    arr.append("%d@%d:A:%s:%s" % (e[1], e[2], "T" if e[3] else "F",
+                                                                   ",".join("%d=%d" % tuple(x) for x in e[4]) or "-"))
+                                elif (e[2], e[1]) in executed:
+                                    arr.append("%d@%d:L:%s" % (e[1], e[2], "T" if executed[(e[2], e[1])] else "F"))
+                                else:
+                                    arr.append("%d@%d:B" % (e[1], e[2]))
+                            on_disk = sorted((i2, sh2) for (i2, sh2), cs2 in disk.items()
+                                             if cs2 and cs2[0] != "?" and (cs2[1], cs2[2]) == (seq, rh))
+                            acc["rpc_lines"].append("rpc %d %d %s %s %s" % (
+                                r["k"], r["cs"] or 0, "T" if r.get("vi", True) else "F",
+                                ",".join("%d@%d" % tuple(w2) for w2 in r["writers"]) or "-", " ".join(arr)))
+                            acc["rpc_impl"].append(impl + ";" + (",".join("%d.%d" % x for x in on_disk) or "-"))
+                            acc["rpc_cases"].append({"kind": "grid-rpc", "sc": sc, "step": idx, "line": acc["rpc_lines"][-1]})
                     if stuck:
                         break
             finally:
@@ -578,10 +684,28 @@ def run(ctx):
     if goals:
         ctx.sample({"goal": glines[-1], "impl": gimpl[-1]})
     # (c)
-    acc = {"lines": [], "impl": [], "cases": []}
+    acc = {"lines": [], "impl": [], "cases": [], "rpc_lines": [], "rpc_impl": [], "rpc_cases": []}
     for sc in scs:
         run_scenario(ctx, sc, acc)
-    ctx.compare("event traces of real publishes on the grid (result, surprised, writers left, placed, bad_servers)",
+    ctx.compare("event traces of real publishes on the grid (result, surprised, writers left, placed, bad_servers, goal)",
                 acc["cases"], acc["impl"], ctx.model(acc["lines"]))
+    ctx.compare("real publishes end to end: per-request outcome (answered / failed before / executed but answer lost) in "
+                "arrival order -> result, bookkeeping sets, and the slots that hold the new version on disk",
+                acc["rpc_cases"], acc["rpc_impl"], ctx.model(acc["rpc_lines"]))
+    # the write proxies: what the Deferred handed to Publish fires with
+    pc, pi, pl = [], [], []
+    for _ in range(ctx.budget(60, 600) if not ctx.replay else 0):
+        rpc = gen_rpc(ctx.rng)
+        for mdmf in (False, True):
+            pc.append({"kind": "proxy", "mdmf": mdmf, "rpc": list(rpc)})
+            try:
+                pi.append(impl_proxy(mdmf, rpc))
+            except Exception as e:
+                pi.append("harness-exception:" + type(e).__name__)
+            pl.append("proxy " + rpc_token(rpc))
+            ctx.case(("proxy", mdmf, rpc_token(rpc)))
+            ctx.count("proxy-%s:%s" % ("mdmf" if mdmf else "sdmf", pi[-1].split(":")[0]))
+    ctx.compare("SDMFSlotWriteProxy / MDMFSlotWriteProxy finish_publishing(): an answer and a failure are handed on unchanged",
+                pc, pi, ctx.model(pl))
     if acc["lines"]:
         ctx.sample({"grid-pub": acc["lines"][-1][:300], "impl": acc["impl"][-1]})
